@@ -33,10 +33,23 @@ Proof.
   - intros [= -> -> -> ->]. lia.
 Qed.
 
-Definition b8 (x : Z) : Z := x mod 256.
+(** [x mod 256], computed without a division when x is within one period of the
+    byte range (always the case for sums/differences of bytes); [b8_mod] is the
+    defining equation and the only fact proofs use. *)
+Definition b8 (x : Z) : Z :=
+  if x <? 0 then (if -256 <=? x then x + 256 else x mod 256)
+  else if x <? 256 then x
+  else if x <? 512 then x - 256 else x mod 256.
+
+Lemma b8_mod x : b8 x = x mod 256.
+Proof.
+  unfold b8. destruct (x <? 0) eqn:E1.
+  - destruct (-256 <=? x) eqn:E2; lia.
+  - destruct (x <? 256) eqn:E3; [lia|]. destruct (x <? 512) eqn:E4; lia.
+Qed.
 
 Lemma b8_range x : chan_ok (b8 x).
-Proof. unfold chan_ok, b8. lia. Qed.
+Proof. unfold chan_ok. rewrite b8_mod. lia. Qed.
 
 Definition px_zero : px := mkpx 0 0 0 0.        (* 0x00000000 *)
 Definition px_black : px := mkpx 255 0 0 0.     (* 0xff000000 *)
@@ -54,18 +67,19 @@ Proof. unfold wf_px, px_sub; cbn [pa pr pg pb]. repeat split; apply b8_range. Qe
 (** The law every inverse transform rests on. *)
 Lemma px_add_sub p q : wf_px p -> px_add (px_sub p q) q = p.
 Proof.
-  destruct p as [a r g b]. unfold wf_px, chan_ok, px_add, px_sub, b8; cbn [pa pr pg pb].
-  intros (Ha & Hr & Hg & Hb). f_equal; lia.
+  destruct p as [a r g b]. unfold wf_px, chan_ok, px_add, px_sub; cbn [pa pr pg pb].
+  rewrite !b8_mod. intros (Ha & Hr & Hg & Hb). f_equal; lia.
 Qed.
 
 Lemma px_sub_add p q : wf_px p -> px_sub (px_add p q) q = p.
 Proof.
-  destruct p as [a r g b]. unfold wf_px, chan_ok, px_add, px_sub, b8; cbn [pa pr pg pb].
-  intros (Ha & Hr & Hg & Hb). f_equal; lia.
+  destruct p as [a r g b]. unfold wf_px, chan_ok, px_add, px_sub; cbn [pa pr pg pb].
+  rewrite !b8_mod. intros (Ha & Hr & Hg & Hb). f_equal; lia.
 Qed.
 
 (** Packed 32-bit view (alpha in bits 31..24, red 23..16, green 15..8, blue 7..0). *)
 Definition argb_of_px (p : px) : Z := ((pa p * 256 + pr p) * 256 + pg p) * 256 + pb p.
+
 Definition px_of_argb (v : Z) : px :=
   mkpx ((v / 16777216) mod 256) ((v / 65536) mod 256) ((v / 256) mod 256) (v mod 256).
 
@@ -85,10 +99,10 @@ Qed.
 
 (** Average2 of the specification: per channel (a + b) div 2. *)
 Definition avg2 (p q : px) : px :=
-  mkpx ((pa p + pa q) / 2) ((pr p + pr q) / 2) ((pg p + pg q) / 2) ((pb p + pb q) / 2).
+  mkpx (Z.div2 (pa p + pa q)) (Z.div2 (pr p + pr q)) (Z.div2 (pg p + pg q)) (Z.div2 (pb p + pb q)).
 
 Lemma avg2_wf p q : wf_px p -> wf_px q -> wf_px (avg2 p q).
-Proof. unfold wf_px, chan_ok, avg2; cbn [pa pr pg pb]. lia. Qed.
+Proof. unfold wf_px, chan_ok, avg2; cbn [pa pr pg pb]. rewrite !Z.div2_div. lia. Qed.
 
 (** Select (predictor 11): Manhattan distances of the estimate L+T-TL to L and T. *)
 Definition select (L T TL : px) : px :=
@@ -112,12 +126,27 @@ Definition clamp_add_sub_half (a b : px) : px :=
 
 (** int8 reading of a byte and the cross-colour delta (t * c) >> 5 on int8 values
     (arithmetic shift = floor division). *)
-Definition int8 (x : Z) : Z := let y := x mod 256 in if y <? 128 then y else y - 256.
-Definition color_delta (t c : Z) : Z := (int8 t * int8 c) / 32.
+Definition int8 (x : Z) : Z := let y := b8 x in if y <? 128 then y else y - 256.
+Definition color_delta (t c : Z) : Z := Z.shiftr (int8 t * int8 c) 5.
+
+Lemma color_delta_div t c : color_delta t c = (int8 t * int8 c) / 32.
+Proof. unfold color_delta. now rewrite Z.shiftr_div_pow2 by lia. Qed.
 
 (** Colour-cache slot of a pixel: (0x1e35a7bd * argb) mod 2^32 >> (32 - bits). *)
 Definition cache_hash (bits : Z) (p : px) : Z :=
-  ((506832829 * argb_of_px p) mod 4294967296) / 2 ^ (32 - bits).
+  Z.shiftr (Z.land (506832829 * argb_of_px p) 4294967295) (32 - bits).
+
+Lemma cache_hash_div bits p : 0 <= bits <= 32 ->
+  cache_hash bits p = ((506832829 * argb_of_px p) mod 4294967296) / 2 ^ (32 - bits).
+Proof.
+  intros H. unfold cache_hash. rewrite Z.shiftr_div_pow2 by lia.
+  change 4294967295 with (Z.ones 32). rewrite Z.land_ones by lia. reflexivity.
+Qed.
 
 (** ceil (size / 2^bits). *)
 Definition subsample (size bits : Z) : Z := (size + 2 ^ bits - 1) / 2 ^ bits.
+
+(** Linear-time list reversal ([List.rev] is quadratic when executed). *)
+Definition frev {A} (l : list A) : list A := rev_append l [].
+Lemma frev_rev {A} (l : list A) : frev l = rev l.
+Proof. unfold frev. symmetry. apply rev_alt. Qed.
